@@ -116,6 +116,14 @@ theorem slice_set_eq {F} (d : Array F) (i : Nat) (v : F) (a b : Nat) (h1 : a ≤
 theorem slice_none {F} (d : Array F) (a b : Nat) (h : b < a) : slice d a b = none := by
   simp [slice]; omega
 
+/-- the ring cursor written with `%`: `(i + 1) % n` is the same wrap-around as `if i + 1 < n then i + 1 else 0`
+    when `i < n` (a conditional rewrite rule of `rs_exec`, side condition by `omega`) -/
+theorem mod_wrap (i n : Nat) (h : i < n) : (i + 1) % n = if i + 1 < n then i + 1 else 0 := by
+  split
+  · exact Nat.mod_eq_of_lt (by assumption)
+  · have : i + 1 = n := by omega
+    rw [this, Nat.mod_self]
+
 /-- Symbolic execution of a generated `next`/`reset` body that is *independent of the syntactic
     shape of its tests*: the checked operations are rewritten to their values (side conditions by
     `omega`), every `if` of the goal is split, and the loop repeats until nothing moves.  The
@@ -125,7 +133,7 @@ theorem slice_none {F} (d : Array F) (a b : Nat) (h : b < a) : slice d a b = non
 macro "rs_exec" : tactic => `(tactic|
   repeat' (first
     | split
-    | (simp (disch := omega) only [index_eq, setIndex_eq, uadd_eq, usub_eq, umod_eq, udiv_eq,
+    | (simp (disch := omega) only [index_eq, setIndex_eq, uadd_eq, usub_eq, umod_eq, udiv_eq, mod_wrap,
         gen_helper, Option.bind_eq_bind, Option.bind_some, Option.pure_def, decide_eq_true_eq, imp_false,
         decide_eq_false_iff_not, Bool.not_eq_true', Bool.and_eq_true, Bool.or_eq_true] at *)))
 
@@ -194,7 +202,7 @@ macro_rules
   | `(tactic| rs_exec_lazy [$ts,*]) => `(tactic|
       repeat' (first
         | (simp only [gen_helper, Option.bind_eq_bind, Option.pure_def])
-        | (simp (disch := omega) only [index_eq, setIndex_eq, uadd_eq, usub_eq, umod_eq, udiv_eq,
+        | (simp (disch := omega) only [index_eq, setIndex_eq, uadd_eq, usub_eq, umod_eq, udiv_eq, mod_wrap,
             slice_eq, slice_set_eq, ite_decide_pos, ite_decide_neg])
         | (simp only [Option.bind_some, ite_some_some, ite_prod_left, ite_self, $ts,*])))
 
